@@ -96,6 +96,7 @@ def assemble(template_path, unit, default_props, skip_fns=None):
         if l.strip().startswith('//@property '):
             default_props = [x for part in l.strip().split()[1:] for x in part.split(',') if x]
     asm = Assembled()
+    asm.template_text = '\n'.join(tpl)
     out = []   # list of lines
 
     def cur_line():
@@ -375,6 +376,11 @@ def assemble(template_path, unit, default_props, skip_fns=None):
         out.append(ln)
         i += 1
     _expand_reflected_helpers(asm, out)
+    if getattr(asm, '_late_consts', None):
+        at_ = max((k_ for k_, l_ in enumerate(out) if isinstance(l_, str) and l_.strip().startswith('} // verus!')), default=None)
+        if at_ is not None:
+            for c_ in asm._late_consts:
+                out.insert(at_, c_)
     asm.text = '\n'.join(out) + '\n'
     # assumptions scan
     for n, l in enumerate(out, 1):
@@ -945,6 +951,31 @@ def _emit_fn(asm, out, unit, kv, block, default_props):
     quals = ft.qualifiers()
     if 'unsafe' in quals.split():
         sig = 'unsafe ' + sig
+    # a `common::NAME` constant the template does not know (a refactoring introduced it): extract it from common.rs like
+    # `//@const` would and refer to it by its bare name (R11) — the function stays ingestible
+    for cname_ in sorted(set(re.findall(r'\bcommon::(\w+)', _code_only(body)))):
+        known_ = re.search(r'\bconst\s+%s\b|name=(?:common::)?%s\b' % (cname_, cname_), getattr(asm, 'template_text', '')) or \
+            any(re.search(r'\bconst\s+%s\b' % cname_, l_) for l_ in out if isinstance(l_, str))
+        if known_:
+            continue
+        try:
+            csrc_ = get_source('yarel/src/common.rs')
+            cit_ = csrc_.find(cname_, kind='const')
+            ctxt_ = csrc_.text_of(cit_)
+            cm_ = re.search(r'const\s+\w+\s*:\s*([^=]+)=\s*(.*);', _code_only(ctxt_), re.S)
+            if cm_:
+                cline_ = ('pub const %s: %s = %s;  // extracted common.rs:%d (named by %s, not by the template)'
+                          % (cname_, cm_.group(1).strip(), _norm(cm_.group(2)).replace('common::', ''), csrc_.line_of(cit_.start), fname))
+                # module level (the function may sit inside an impl block), and without shifting any line recorded so
+                # far: emitted at the very end of the verus! block when the unit is complete
+                if not hasattr(asm, '_late_consts'):
+                    asm._late_consts = []
+                asm._late_consts.append(cline_)
+                asm.dropped.append('%s: constant common::%s extracted on demand' % (fname, cname_))
+        except Exception:
+            pass
+    if re.search(r'\bcommon::\w+', _code_only(body)) and not any(t.startswith('rewrite ') and 'R11' in t.split() for t in block):
+        block = list(block) + ['rewrite R11']
     # --- rewrites on signature+body
     requires, ensures, attrs = [], [], []
     loops = {}
@@ -1050,6 +1081,43 @@ def _emit_fn(asm, out, unit, kv, block, default_props):
             body = pat.sub(lambda _m: b, body)
             sig = pat.sub(lambda _m: b, sig)
             asm.rewrites.append(('subst %r => %r' % (a, b), fname, n))
+        elif t.startswith('wrap '):
+            # `wrap "A(B(" => "C("`: every `A(B(E))` (whatever E is) becomes `C(E)` — for constructor nests such as
+            # `Root::new(RefCell::new(E))` whose argument a refactoring may reshape
+            m = re.match(r'wrap\s+"((?:[^"\\]|\\.)*)"\s*=>\s*"((?:[^"\\]|\\.)*)"', t)
+            if not m:
+                raise ExtractError("bad wrap directive in %s: %s" % (fname, t))
+            a = m.group(1).replace('\\"', '"')
+            b = m.group(2).replace('\\"', '"')
+            depth_a = a.count('(')
+            pat = re.compile(r'\s*'.join(re.escape(x) for x in re.findall(r'\w+|\S', a)))
+            n = 0
+            pos_ = 0
+            while True:
+                mw = pat.search(body, pos_)
+                if not mw:
+                    break
+                # the innermost opening paren is the last char of the match
+                op_ = mw.end() - 1
+                cl_ = rsx.match_close(body, rsx.code_mask(body), op_, '(', ')')
+                inner = body[op_ + 1:cl_]
+                # skip the remaining closing parens of the outer constructors
+                k_ = cl_ + 1
+                ok_ = True
+                for _ in range(depth_a - 1):
+                    mm = re.match(r'\s*\)', body[k_:])
+                    if not mm:
+                        ok_ = False
+                        break
+                    k_ += mm.end()
+                if not ok_:
+                    pos_ = mw.end()
+                    continue
+                rep = b + inner + ')'
+                body = body[:mw.start()] + rep + body[k_:]
+                pos_ = mw.start() + len(rep)
+                n += 1
+            asm.rewrites.append(('wrap %r => %r' % (a, b), fname, n))
         elif t.startswith('requires '):
             requires.append(t[9:].strip())
         elif t.startswith('ensures ') or t.startswith('ensures! '):
